@@ -60,6 +60,12 @@ def history(run, h, batch, rng, M, M2, pool, hi):
     _, msg, bf = cust.expected_reply()
     honest = bsign_dl(M, u1, commit_msg_dl(M, msg, bf))
     pool.append(("closing_signature_of_another_session", honest))
+    # the merchant's own call with its randomiser drawn as 0: a reply whose first element is the identity, handed over in
+    # memory (its wire form would not even decode); it must be refused like any other bad reply, the state kept
+    z = merchant_init(h, M, cid, cb, mb, e["proof_hex"], ctx, u=0)
+    if z["ok"]:
+        feed(run, h, batch, cust, "merchant_randomiser_zero", z["closing"], (0, 0), False, tag)
+        close_on_copy(run, h, batch, rng, cust, ledger, disclosed, cid, tag)
     inject(run, h, batch, rng, M, M2, cust, pool[:-1], ledger, disclosed, cid, tag)
     t = feed(run, h, batch, cust, "honest", mi["closing"], honest, True, tag)
     if t[0] != "ok":
@@ -123,6 +129,10 @@ def payment(run, h, batch, rng, M, M2, cust, pool, ledger, disclosed, cid, tag):
     _, msg, bf = started.expected_reply()
     honest = bsign_dl(M, u1, commit_msg_dl(M, msg, bf))
     pool.append(("closing_signature_of_earlier_payment", honest))
+    z = merchant_allow(h, M, amt, unsc(nonce_hex), proof_hex, pctx, u=0)
+    if z["ok"]:
+        feed(run, h, batch, started, "merchant_randomiser_zero", z["closing"], (0, 0), False, tag)
+        close_on_copy(run, h, batch, rng, started, ledger, disclosed, cid, tag)
     inject(run, h, batch, rng, M, M2, started, pool[:-1], ledger, disclosed, cid, tag)
     t = feed(run, h, batch, started, "honest", a["closing"], honest, True, tag)
     if t[0] != "ok":
@@ -140,6 +150,13 @@ def payment(run, h, batch, rng, M, M2, cust, pool, ledger, disclosed, cid, tag):
     _, msg, bf = locked.expected_reply()
     honest = bsign_dl(M, u2, commit_msg_dl(M, msg, bf))
     pool.append(("pay_token_of_earlier_payment", honest))
+    if z["ok"]:
+        # the pending payment of the second allow_payment call, completed with the randomiser drawn as 0
+        h.rng(4, [0])
+        zp = h.call("u_complete", z["unrev"], t[2], t[3])
+        if zp[0] == "ok":
+            feed(run, h, batch, locked, "merchant_randomiser_zero", zp[1], (0, 0), False, tag)
+            close_on_copy(run, h, batch, rng, locked, ledger, disclosed, cid, tag)
     inject(run, h, batch, rng, M, M2, locked, pool[:-1], ledger, disclosed, cid, tag)
     t = feed(run, h, batch, locked, "honest", cp[1], honest, True, tag)
     if t[0] != "ok":
